@@ -1,31 +1,206 @@
+// govc: contract-based deductive verifier for plgd-dev/go-coap (see /verif/DESIGN.md).
 package main
 
 import (
+	"flag"
 	"fmt"
 	"os"
+	"sort"
+	"strings"
+	"time"
 
-	"golang.org/x/tools/go/packages"
-	"golang.org/x/tools/go/ssa"
-	"golang.org/x/tools/go/ssa/ssautil"
+	"govc/internal/eng"
 )
 
 func main() {
-	cfg := &packages.Config{Mode: packages.LoadAllSyntax, Dir: "/repo", BuildFlags: []string{"-tags=verif"}, Env: append(os.Environ(), "GOFLAGS=-mod=mod", "GOPROXY=off")}
-	pkgs, err := packages.Load(cfg, os.Args[1])
-	if err != nil {
-		panic(err)
+	if len(os.Args) < 2 {
+		fmt.Fprintln(os.Stderr, "usage: govc verify|check|replay|selftest ...")
+		os.Exit(2)
 	}
-	prog, spkgs := ssautil.AllPackages(pkgs, ssa.NaiveForm|ssa.InstantiateGenerics)
-	prog.Build()
-	for _, p := range spkgs {
-		if p == nil {
+	switch os.Args[1] {
+	case "verify":
+		cmdVerify(os.Args[2:])
+	case "check":
+		os.Exit(cmdCheck(os.Args[2:]))
+	case "replay":
+		os.Exit(cmdReplay(os.Args[2:]))
+	case "ssa":
+		cmdSSA(os.Args[2:])
+	default:
+		fmt.Fprintln(os.Stderr, "unknown command", os.Args[1])
+		os.Exit(2)
+	}
+}
+
+func envOr(k, d string) string {
+	if v := os.Getenv(k); v != "" {
+		return v
+	}
+	return d
+}
+
+// verify: developer command. govc verify -pkg net/blockwise [-func Name] [-v] [-dump dir]
+func cmdVerify(args []string) {
+	fs := flag.NewFlagSet("verify", flag.ExitOnError)
+	pkg := fs.String("pkg", "", "repo-relative package dir(s), comma separated")
+	fn := fs.String("func", "", "only this contract key (substring)")
+	verbose := fs.Bool("v", false, "list every obligation")
+	dump := fs.String("dump", "", "write failing SMT files here")
+	full := fs.Int("t", 10, "solver timeout seconds")
+	repo := fs.String("repo", envOr("VERIF_REPO", "/repo"), "repository")
+	verif := fs.String("verif", envOr("VERIF_DIR", "/verif"), "verif dir")
+	fs.Parse(args)
+	dirs := strings.Split(*pkg, ",")
+	t0 := time.Now()
+	ld, err := eng.Load(*repo, *verif, dirs)
+	if err != nil {
+		fmt.Println("load:", err)
+		os.Exit(2)
+	}
+	fmt.Printf("loaded in %.1fs; overlaid contracts: %v\n", time.Since(t0).Seconds(), ld.Overlaid)
+	tmp, _ := os.MkdirTemp("", "govc")
+	defer os.RemoveAll(tmp)
+	bad := 0
+	for _, d := range dirs {
+		sp := ld.Pkgs[d]
+		if sp == nil {
+			fmt.Println("package not loaded:", d)
 			continue
 		}
-		for _, fn := range os.Args[2:] {
-			if f := p.Func(fn); f != nil {
-				f.WriteTo(os.Stdout)
+		ps := ld.Eng.Specs[sp]
+		if ps == nil {
+			fmt.Println("no contracts for", d)
+			continue
+		}
+		for _, key := range ps.Order {
+			if *fn != "" && !strings.Contains(key, *fn) {
+				continue
+			}
+			spec := ps.Funcs[key]
+			if spec.Trusted {
+				fmt.Printf("%-50s trusted (assumed)\n", key)
+				continue
+			}
+			f := eng.LookupFunc(ld.Prog, sp, key)
+			if f == nil {
+				fmt.Printf("%-50s NOT FOUND in package\n", key)
+				bad++
+				continue
+			}
+			t1 := time.Now()
+			res := ld.Eng.VerifyFunc(f, spec)
+			if res.Err != nil {
+				fmt.Printf("%-50s REFUSED: %v\n", key, res.Err)
+				bad++
+				continue
+			}
+			gen := time.Since(t1).Seconds()
+			eng.Discharge(res.Obligations, eng.SolverCfg{Dir: tmp, Quick: 3 * time.Second, Full: time.Duration(*full) * time.Second})
+			ok, fail, covers, vac := 0, 0, 0, 0
+			byName := map[string][]*eng.Obligation{}
+			var names []string
+			for _, ob := range res.Obligations {
+				if _, seen := byName[ob.Name]; !seen {
+					names = append(names, ob.Name)
+				}
+				byName[ob.Name] = append(byName[ob.Name], ob)
+				if ob.Cover {
+					covers++
+					if ob.Status == "unsat" {
+						vac++
+					}
+					continue
+				}
+				if ob.Status == "unsat" {
+					ok++
+				} else {
+					fail++
+				}
+			}
+			fmt.Printf("%-50s paths=%d obligations=%d discharged=%d failed=%d covers=%d vacuous=%d gen=%.2fs total=%.2fs\n",
+				key, res.Paths, ok+fail, ok, fail, covers, vac, gen, time.Since(t1).Seconds())
+			sort.Strings(names)
+			for _, n := range names {
+				obs := byName[n]
+				nf := 0
+				for _, ob := range obs {
+					if !ob.Cover && ob.Status != "unsat" || ob.Cover && ob.Status == "unsat" {
+						nf++
+					}
+				}
+				if nf > 0 || *verbose {
+					st := "ok"
+					if nf > 0 {
+						st = "FAILED"
+						bad++
+					}
+					fmt.Printf("    %-8s %s  (%d instance(s), %d failing)\n", st, n, len(obs), nf)
+				}
+				if nf > 0 {
+					for i, ob := range obs {
+						if (!ob.Cover && ob.Status != "unsat") || (ob.Cover && ob.Status == "unsat") {
+							fmt.Printf("        [%d] status=%s solver=%s path=%s clause=%s\n", i, ob.Status, ob.Solver, ob.Path, ob.Clause)
+							if *dump != "" {
+								os.MkdirAll(*dump, 0o755)
+								fnm := fmt.Sprintf("%s/%s_%d.smt2", *dump, strings.NewReplacer("/", "_", ":", "_", "(", "", ")", "", "*", "p", "#", "_").Replace(n), i)
+								os.WriteFile(fnm, []byte(ob.SMT(true)), 0o644)
+								fmt.Println("        dumped", fnm)
+							}
+							if ob.Model != "" && *verbose {
+								fmt.Println(indent(firstLines(ob.Model, 40), "          "))
+							}
+							break
+						}
+					}
+				}
 			}
 		}
 	}
-	fmt.Println("ok")
+	var as []string
+	for a := range ld.Eng.Assumptions {
+		as = append(as, a)
+	}
+	sort.Strings(as)
+	for _, a := range as {
+		fmt.Println("assumption:", a)
+	}
+	if bad > 0 {
+		os.Exit(1)
+	}
 }
+
+func firstLines(s string, n int) string {
+	ls := strings.Split(s, "\n")
+	if len(ls) > n {
+		ls = ls[:n]
+	}
+	return strings.Join(ls, "\n")
+}
+
+func indent(s, p string) string {
+	return p + strings.ReplaceAll(s, "\n", "\n"+p)
+}
+
+func cmdSSA(args []string) {
+	fs := flag.NewFlagSet("ssa", flag.ExitOnError)
+	pkg := fs.String("pkg", "", "package dir")
+	fn := fs.String("func", "", "contract key")
+	fs.Parse(args)
+	ld, err := eng.Load("/repo", "/verif", []string{*pkg})
+	if err != nil {
+		fmt.Println(err)
+		os.Exit(2)
+	}
+	f := eng.LookupFunc(ld.Prog, ld.Pkgs[*pkg], *fn)
+	if f == nil {
+		fmt.Println("not found")
+		os.Exit(1)
+	}
+	f.WriteTo(os.Stdout)
+	for _, a := range f.AnonFuncs {
+		a.WriteTo(os.Stdout)
+	}
+}
+
+
+
